@@ -296,7 +296,8 @@ func ZZ_C17_FailedOpKeepsAttachment() {
 	s, fs := ZZServer("open", 2)
 	r := s.r
 	r.mode = types.RW
-	op := zzConcretize(zzChoice("op", 7))
+	op := zzConcretize(zzChoice("op", 8))
+	c0 := zzCell()
 	fs.Steps = 0
 	fs.FailAt = zzConcretize(zzChoice("failAt", 40))
 	zzTrapFatal()
@@ -322,9 +323,12 @@ func ZZ_C17_FailedOpKeepsAttachment() {
 		case 5:
 			opname = "SetCheckpoint"
 			err = s.SetCheckpoint("volume-snap-a.img")
-		default:
+		case 6:
 			opname = "RemoveDiffDisk"
 			err = s.RemoveDiffDisk("volume-snap-a.img")
+		default:
+			opname = "Close"
+			err = s.Close()
 		}
 	})
 	if !fs.Failed {
@@ -337,6 +341,23 @@ func ZZ_C17_FailedOpKeepsAttachment() {
 	zzReach("C17.failed-op.injected")
 	if err != nil {
 		zzReach("C17.failed-op.reported")
+	}
+	if opname == "Close" {
+		// a close that failed half-way (data files closed, metadata rewrite failed): the
+		// replica is either detached or, if the server still holds it for a retry, gated
+		// like a closed one: no write, no counter update, no snapshot removal
+		if err != nil && s.r != nil {
+			zzReach("C17.failed-close.still-held")
+			buf := make([]byte, 4096)
+			_, werr := s.WriteAt(buf, 0)
+			zzAssert(werr != nil, "C17.write-accepted-after-failed-close")
+			zzAssert(s.SetRevisionCounter(c0+5) != nil, "C17.SetRevisionCounter-accepted-after-failed-close")
+			zzAssert(zzCell() == c0, "C17.revision-counter-changed-after-failed-close")
+			_, perr := s.PrepareRemoveDisk("volume-snap-b.img")
+			zzAssert(perr != nil, "C17.PrepareRemoveDisk-accepted-after-failed-close")
+			zzAssert(s.RemoveDiffDisk("volume-snap-a.img") != nil, "C17.RemoveDiffDisk-accepted-after-failed-close")
+		}
+		return
 	}
 	zzAssert(s.r != nil, "C17.failed-"+opname+"-detached-the-replica-without-closing-it")
 	if s.r == nil {
